@@ -34,7 +34,7 @@ REGIMES = ["BOOL", "MT", "MP", "FREE", "QQ", "FLOAT", "FLOAT", "REAL", "LOG"]
 
 
 def examples(tier):
-    return 640 if tier == "quick" else 16000
+    return 2000 if tier == "quick" else 24000
 
 
 @st.composite
